@@ -224,7 +224,7 @@ func main() {
 
 	rep.Discover = os.Getenv("VERIF_DISCOVER") != ""
 
-	budget := 100
+	budget := 150
 	if b, err := strconv.Atoi(os.Getenv("VERIF_BUDGET_S")); err == nil {
 		budget = b
 	} else if *tier == "thorough" {
@@ -430,7 +430,7 @@ func main() {
 			"samples":         samples,
 			"outcome_classes": oc,
 			"exhaustive":      exh, "bound": strings.Join(bound, "; "),
-			"systems": all, "known_findings_matched": rep.KnownMatched(),
+			"systems": all, "known_findings_matched": append([]string{}, rep.KnownMatched()...),
 			"total_violation_instances": rep.Total, "budget_s": budget, "scratch": tmpfs,
 		},
 		Assumptions: []string{
